@@ -7,6 +7,7 @@ Correspondence: the Lean adverb machines (`Klong.C02`, reference and implementat
 a logging monad) on the modelled verbs / operands: same result, same call sequence.
 """
 import itertools
+import sys
 
 from . import common
 from . import universe as U
@@ -17,21 +18,36 @@ CLAIM = dict(
          "the implementation model of Over, Over-Neutral, Scan-Over, Scan-Over-Neutral, Each, Each-Left, Each-Right, "
          "Each-Pair, Iterate, Scan-Iterating (functools.reduce / itertools.accumulate / comprehensions as written in "
          "adverbs.py) equals the manual's expansion as a monadic program (same calls, same order, same result); the "
-         "operator shortcuts (ufunc.reduce / accumulate, min/max) are sound against the generic fold. Tied to klongpy "
-         "by adverb x verb x operand evaluation with call logs; chains are compared with their lambda-wrapped form.",
+         "operator shortcuts (ufunc.reduce / accumulate, min/max) are sound against the generic fold. Likewise "
+         "Each-Index, Each-2 (empty / atom-atom / pairwise clauses, result join), Each on strings and dictionaries (each "
+         "[key value] tuple exactly once), and with explicit fuel Converge, Scan-Converging, While, Scan-While (the Python "
+         "while loops against the manual's recursion, for every fuel; the value returned by Converge is the first iterate "
+         "that the verb maps to a matching value). chain_adverbs builds, for every chain length, the left-to-right "
+         "composition in which only the first adverb sees the verb's operator. Tied to klongpy "
+         "by adverb x verb x operand evaluation with call logs; chains are compared with their lambda-wrapped form and "
+         "with the Lean chain machine; the convergence family runs under a step budget.",
     note="trusted: Lean kernel, numpy ufunc.reduce/accumulate = left fold over axis 0 (modelled; floating-point "
          "pairwise summation by tolerance), canonicaliser, the harness' expansion evaluator",
     technique="Lean 4 equational proofs over an arbitrary lawful monad + shortcut soundness, differential correspondence "
               "with call logs, definitional-expansion oracle on the real interpreter",
     design="7/C02")
 
-MODULES = ["Klong.Props.C02"]
+MODULES = ["Klong.Props.C02", "Klong.Props.C02Ext"]
 THEOREMS = [
     "Klong.C02.over_eq", "Klong.C02.over_neutral_eq", "Klong.C02.scan_eq", "Klong.C02.scan_neutral_eq",
     "Klong.C02.each_eq", "Klong.C02.each_left_eq", "Klong.C02.each_right_eq", "Klong.C02.each_pair_eq",
     "Klong.C02.iterate_eq", "Klong.C02.scan_iterating_eq",
     "Klong.C02.over_shortcut_sound", "Klong.C02.scan_shortcut_sound",
     "Klong.C02.over_calls_verb_n_minus_1_times",
+    # Klong.Props.C02Ext
+    "Klong.C02.each_index_eq", "Klong.C02.each_index_eq_of_not_str", "Klong.C02.each2_eq",
+    "Klong.C02.each2_join_sound", "Klong.C02.each_x_eq", "Klong.C02.each_dict_eq",
+    "Klong.C02.each_dict_calls_each_pair_once",
+    "Klong.C02.converge_eq", "Klong.C02.scan_converging_eq", "Klong.C02.while_eq", "Klong.C02.scan_while_eq",
+    "Klong.C02.converge_fixpoint",
+    "Klong.C02.chain_eq", "Klong.C02.refChain_snoc", "Klong.C02.chain_eq_snoc",
+    "Klong.C02.chain_pinned_op_leak_observable", "Klong.C02.each_index_pystr_observable",
+    "Klong.C02.each2_u1_join_observable",
 ]
 
 OPS2 = ["+", "-", "*", "%", "&", "|", ",", "=", "<", ">", "~", "!"]   # ^: kind of integral results is unspecified
@@ -59,8 +75,22 @@ class Real:
         def pyinc(x):
             real.log.append((U.canon(x),))
             return x + 1
+        def pylog(x):
+            real.log.append((U.canon(x),))
+            return x
+
+        def pyhalf(x):
+            real.log.append((U.canon(x),))
+            return x // 2
+
+        def pylt10(x):
+            real.log.append((U.canon(x),))
+            return 1 if x < 10 else 0
         self.k["pyadd"] = pyadd
         self.k["pyinc"] = pyinc
+        self.k["pylog"] = pylog
+        self.k["pyhalf"] = pyhalf
+        self.k["pylt10"] = pylt10
         self.k("pj1::{x+y}(1;)")
         self.k("pj2::{x-y}(;1)")
         self.n = 0
@@ -101,6 +131,10 @@ class Real:
             return list(a)
         return None
 
+    def is_list(self, a):
+        import numpy as np
+        return isinstance(a, list) or (isinstance(a, np.ndarray) and a.ndim > 0)
+
     def pair(self, i, e):
         """the two-element list [i e] (built like any list literal is, not by a verb)"""
         return self.k._backend.kg_asarray([i, e])
@@ -136,7 +170,82 @@ def norm(v):
 
 ATOMIC = {"+", "-", "*", "%", "&", "|", "=", "<", ">", "!", "^", "{x+y}", "{x-y}", "{y-x}", "{(2*x)+y}",
           "{pyadd(x;y)}", "{x+1}", "{-x}", "-", "pj1", "pj2", "pyinc", "{pj1(x)}", "{pj2(x)}", "{pyinc(x)}"}
-TEXT_OK = {",", "~", "{x,y}", "{x,,y}", "{x}", "{,x}", "{x,x}", "{#x}", "#", "|", "{x@1}", "{*x}"}
+TEXT_OK = {",", "~", "{x,y}", "{x,,y}", "{x}", "{,x}", "{x,x}", "{#x}", "#", "|", "{x@1}", "{*x}",
+           "{y}", '{x;y;"a"}', "{x;y;0ca}", "pylog", "{x@0}"}
+
+# --- the adverbs of Klong.Model.C02Ext (driver request `advx`)
+LEAN_VERB = {"pyinc": "{x+1}", "{pyinc(x)}": "{x+1}", "{pyadd(x;y)}": "+", "pylog": "{x}", "{pylog(x)}": "{x}",
+             "{pyhalf(x)}": "{x:%2}", "{pylt10(x)}": "{x<10}"}
+MODELLED_IDX = {"{x+1}", "{-x}", "{x,x}", "{#x}", "{,x}", "{x}", "{x@1}", "{x@0}", "{*x}", "{(*x)+#x@1}"}
+TEXT_MODELLED = {",", "{x,y}", "{x}", "{,x}", "{x,x}", "{x@1}", "{x@0}", "{*x}", "{#x}"}
+
+
+def wire_ok(v):
+    """values the Lean machines handle exactly: integers, characters, strings, lists and dictionaries of those"""
+    t = v[0]
+    if t in "ics":
+        return True
+    if t == 'L':
+        return all(wire_ok(x) for x in v[1])
+    if t == 'D':
+        return all(wire_ok(k) and wire_ok(x) for k, x in v[1])
+    return False
+
+
+def has_text_d(v):
+    return has_text(v) or (v[0] == 'D' and any(has_text(k) or has_text(x) for k, x in v[1]))
+
+
+def sort_members(v):
+    """the members of a list in a canonical order (Each over a dictionary: "in some random order")"""
+    return ('L', sorted(v[1], key=repr)) if v[0] == 'L' else v
+
+
+def lean_log(rep_impl):
+    """the call log printed by the driver -> list of tuples of wire strings"""
+    if " log=" not in rep_impl:
+        return None
+    body = rep_impl.split(" log=", 1)[1].strip()
+    if not body:
+        return []
+    return [tuple(a.strip() for a in call.split(",")) for call in body.split("|")]
+
+
+def real_log_wire(log):
+    return [tuple(U.to_wire(norm(a)) for a in call) for call in log]
+
+
+class Budget(BaseException):
+    pass
+
+
+def guarded(fn, limit=400000):
+    """run fn() under a budget of profile events (Python and C calls; no wall clock):
+    ('ok', value) / ('err', exception) / ('hang', None) when the budget is exceeded"""
+    cnt = [0]
+
+    def prof(frame, ev, arg):
+        if ev == "call" or ev == "c_call":
+            cnt[0] += 1
+            if cnt[0] > limit:
+                sys.setprofile(None)
+                raise Budget()
+
+    sys.setprofile(prof)
+    try:
+        v = fn()
+        sys.setprofile(None)
+        return ("ok", v)
+    except Budget:
+        return ("hang", None)
+    except (RecursionError, MemoryError):
+        sys.setprofile(None)
+        return ("err", RecursionError("deep"))
+    except Exception as e:  # noqa
+        sys.setprofile(None)
+        return ("err", e)
+    finally:
+        sys.setprofile(None)
 
 
 def mixed_numeric_array(v):
@@ -220,6 +329,9 @@ def expansion(r, adv, verb, args):
             out.append(acc)
         return r.mklist(out)
     if adv == "'" and len(args) == 1:
+        if isinstance(args[0], dict):
+            # "apply f to each tuple stored in the dictionary"
+            return r.mklist([r.app1(verb, r.pair(k, v)) for k, v in args[0].items()])
         es = r.elems(args[0])
         if es is None:
             return r.app1(verb, args[0])
@@ -230,8 +342,12 @@ def expansion(r, adv, verb, args):
         ea, eb = r.elems(args[0]), r.elems(args[1])
         if ea is None and eb is None:
             return r.app2(verb, args[0], args[1])
-        if ea is None or eb is None or len(ea) != len(eb) or not ea:
-            raise Skip()
+        if (ea is not None and not ea) or (eb is not None and not eb):
+            # "If either a or b is [], ignore f and return []" (no members at all: "" when no list is involved)
+            return r.k("[]") if r.is_list(args[0]) or r.is_list(args[1]) else ""
+        if ea is None or eb is None:
+            raise Skip()                  # an atom with a non-empty list: the manual defines nothing
+        # "When the lengths of a and b differ, ignore any excess elements of the longer list"
         return r.mklist([r.app2(verb, x, y) for x, y in zip(ea, eb)])
     if adv == ":\\":
         es = r.elems(args[1])
@@ -303,7 +419,7 @@ def gen_cases(ctx):
             for b in lists:
                 if a[0] == 'L' and b[0] == 'L' and len(a[1]) == len(b[1]):
                     cases.append(("'", verb, (a, b)))
-    for verb in LAM1 + ["{x@1}", "{*x}", "{(*x)+#x@1}"]:
+    for verb in LAM1 + ["{x@1}", "{*x}", "{(*x)+#x@1}", "{x@0}", "pylog"]:
         for a in operands:
             cases.append(("@'", verb, (a,)))
     for verb in v1:
@@ -319,13 +435,46 @@ def gen_cases(ctx):
     return cases
 
 
+def gen_ext_cases(ctx):
+    """cases for the adverbs of Klong.Model.C02Ext that the closed universe above does not reach"""
+    cases = []
+    # Each-2: unequal lengths, empty operands, strings, a verb returning one-character strings
+    e2 = [U.from_py(x) for x in ([1, 2, 3], [4, 5], [7], [], [[1, 2], [3]], [1, [2]], "ab", "cd", "abc", "a", "")] \
+        + [U.I(3), U.C("a")]
+    for verb in [",", "{x,y}", "{x,,y}", "{y}", "~", "+", "-", "{x-y}", '{x;y;"a"}', "{x;y;0ca}", "{pyadd(x;y)}"]:
+        for a in e2:
+            for b in e2:
+                cases.append(("'", verb, (a, b)))
+    # Each over dictionaries: f is applied to every [key value] tuple
+    dicts = [('D', [(U.I(1), U.I(2)), (U.I(3), U.I(4))]), ('D', []), ('D', [(U.I(5), U.I(6))]),
+             ('D', [(U.S("a"), U.from_py([1, 2])), (U.I(0), U.S("xy")), (U.I(7), U.I(7))])]
+    for verb in ["{x}", "{x@0}", "{x@1}", "{,x}", "{#x}", "{*x}", "{x,x}", "pylog"]:
+        for d in dicts:
+            cases.append(("'", verb, (d,)))
+    if ctx.tier == "quick":
+        ctx.rng.shuffle(cases)
+        cases = cases[:900]
+    return cases
+
+
 def classify(adv, verb, args):
     sc = ":".join(_shape(a) for a in args)
     return f"{adv}:{verb}:{sc}"
 
 
+def nonempty_str(v):
+    return v[0] == 's' and len(v[1]) > 0
+
+
+def short_strings(v):
+    """a non-empty list all of whose members are strings (not characters) of length <= 1"""
+    return v[0] == 'L' and len(v[1]) > 0 and all(x[0] == 's' and len(x[1]) <= 1 for x in v[1])
+
+
 def _shape(v):
     from .c01 import shape_class
+    if v[0] == 'D':
+        return "dict"
     return shape_class(v)
 
 
@@ -416,6 +565,168 @@ def run_redefinition(ctx, r):
                         "[100 200 300]", U.show(v2), "a replaced Python callable must be the one applied")
 
 
+# ------------------------------------------------------------------------------------------------
+# the convergence family: Converge f:~a, Scan-Converging f\~a, While p f:~b, Scan-While p f\~b
+
+class Diverges(Exception):
+    """the definition makes more than `cap` steps"""
+
+
+CONV_VERBS = ["{x:%2}", "{x%2}", "{(x+2%x)%2}", "{x&5}", "{:[x>3;x;x+1]}", "{,/x}", "{1_x}", "{x}", "{x@<x}", "{?x}",
+              "{-x}", "{#x}", "{x+1}", "{pyhalf(x)}", "{|x}", "{x,1}"]
+CONV_OPERANDS = [U.from_py(x) for x in (0, 1, 2, 3, 8, 17, 100, -3, 100000, 2.0, 0.5, 9.0, 1e-7, [1, 2, 3], [], [3, 1, 2],
+                                        [2, 2, 1, 2], [1, [2, [3, [4], 5], 6], 7], [[1, 2], [3, 4]], [[1], [2, 3]],
+                                        ["f", ["l", "at"], "ten"], "abc", "", "hello foo")] \
+    + [U.C("a"), U.Y("foo"), ('D', [(U.I(1), U.I(2))])]
+WHILE_PREDS = ["{x<10}", "{x<100}", "{x<3}", "{x>0}", "{x<0}", "{0}", "{1}", "{#x}", "{x}", "{pylt10(x)}", '{""}', "{[]}",
+               "{x-10}"]
+WHILE_VERBS = ["{x*2}", "{x+1}", "{x-1}", "{1_x}", "{pyinc(x)}", "{x,x}"]
+WHILE_OPERANDS = [U.from_py(x) for x in (1, 0, 3, 5, 50, -2, 12, 1.5, [1, 2, 3], [7], [], "abc", "")]
+CONV_MODELLED = {"{x:%2}", "{x&5}", "{:[x>3;x;x+1]}", "{,/x}", "{1_x}", "{x}", "{-x}", "{#x}", "{x+1}", "{x,x}",
+                 "{x*2}", "{x-1}", "{x<10}", "{x<3}", "{x>0}", "{x<0}", "{0}"}
+STEP_CAP = 80
+
+
+def klong_true(t):
+    """the manual's truth values: 0, [] and "" are false, everything else is true"""
+    c = U.canon(t)
+    return c not in (('i', 0), ('r', 0.0), ('L', []), ('s', ""))
+
+
+def matches(r, x, y):
+    """Match, evaluated as a separate application on the real interpreter"""
+    a, b = r.bind(x), r.bind(y)
+    return bool(r.k(f"{a}~{b}"))
+
+
+def exp_convergence(r, adv, pred, verb, a):
+    """the manual's definitions written out as separate applications, at most STEP_CAP steps"""
+    if adv == ":~":
+        # "Find the fixpoint of f(a)": the first of f(a), f(f(a)), ... that f maps to a matching value
+        x = r.app1(verb, a)
+        for _ in range(STEP_CAP):
+            y = r.app1(verb, x)
+            if matches(r, x, y):
+                return x
+            x = y
+        raise Diverges()
+    if adv == "\\~":
+        x, out = a, []
+        for _ in range(STEP_CAP):
+            out.append(x)
+            y = r.app1(verb, x)
+            if matches(r, x, y):
+                return r.mklist(out)
+            x = y
+        raise Diverges()
+    if adv in ("w:~", "w\\~"):
+        # "if a(b) is false, return b; else assign b::f(b) and start over" / collect the b that satisfy a
+        b, out = a, []
+        for _ in range(STEP_CAP):
+            if not klong_true(r.app1(pred, b)):
+                return r.mklist(out) if adv == "w\\~" else b
+            out.append(b)
+            b = r.app1(verb, b)
+        raise Diverges()
+    raise Skip()
+
+
+def gen_convergence(ctx):
+    cases = []
+    for verb in CONV_VERBS:
+        for a in CONV_OPERANDS:
+            cases.append((":~", "-", verb, a))
+            cases.append(("\\~", "-", verb, a))
+    for pred in WHILE_PREDS:
+        for verb in WHILE_VERBS:
+            for b in WHILE_OPERANDS:
+                cases.append(("w:~", pred, verb, b))
+                cases.append(("w\\~", pred, verb, b))
+    if ctx.tier == "quick":
+        ctx.rng.shuffle(cases)
+        cases = cases[:700]
+    return cases
+
+
+def run_convergence(ctx, r, drv):
+    """the loops of adverbs.py against the manual's definition; every run of the real code is under a step
+    budget, and the definition decides first whether there is anything to wait for"""
+    n_div = 0
+    for adv, pred, verb, a in gen_convergence(ctx):
+        val = r.k(U.klit(a, False))
+        name = r.bind(val)
+        sym = adv[1:] if adv[0] == 'w' else adv
+        head = (pred if adv[0] == 'w' else "") + verb + sym
+        text, shown = head + name, head + U.klit(a)
+        r.log = []
+        try:
+            want = norm(canon_x(exp_convergence(r, adv, pred, verb, val)))
+            want_log = list(r.log)
+        except Diverges:
+            ctx.bump("convergence:definition-diverges")
+            # the definition never stops: the real code must not come back with a value either
+            n_div += 1
+            if n_div % (5 if ctx.tier == "quick" else 2) == 0:
+                r.log = []
+                st, v = guarded(lambda: r.k(text), 60000)
+                ctx.count(("conv-div", adv, pred, verb, a))
+                if st == "ok":
+                    integral = U.int_only(a) and a[0] == 'i'
+                    ctx.oracle_fail("converge:integer-isclose" if adv == ":~" and integral else f"diverges:{adv}:{verb}",
+                                    dict(text=shown), f"no value (no fixpoint / predicate still true after {STEP_CAP} steps)",
+                                    U.show(U.canon(v)), "the adverb returned although its definition does not terminate")
+            continue
+        except Skip:
+            ctx.bump("skip:outside-reference")
+            continue
+        except Exception:
+            ctx.bump("skip:expansion-raises")
+            continue
+        r.log = []
+        st, v = guarded(lambda: r.k(text))
+        got_log = list(r.log)
+        if st == "ok":
+            got = norm(U.canon(v))
+        else:
+            got = ('E', "exceeds the step budget" if st == "hang" else type(v).__name__)
+        ctx.count((adv, pred, verb, a), nontrivial=True)
+        ctx.bump(f"adverb:{adv}")
+        if got[0] == 'E' or not U.veq(want, got):
+            key = f"{adv}:{pred}:{verb}:{_shape(a)}"
+            if adv[0] == 'w' and got[0] == 'E' and pred in ("{[]}", "{x}", "{x<10}", "{x<100}", "{x<3}", "{x>0}", "{x<0}",
+                                                             "{x-10}") and a[0] == 'L':
+                key = "while:list-valued-predicate"
+            elif adv[0] == 'w' and pred == "{[]}":
+                key = "while:list-valued-predicate"
+            elif got[0] != 'E' and U.veq(want, got, kinds=False) and (mixed_numeric_array(want) or mixed_numeric_array(got)):
+                key = "mixed-numeric-level"
+            elif got[0] != 'E' and pathological(want):
+                key = "result:object-array-rank2"
+            ctx.oracle_fail(key, dict(text=shown), U.show(want), U.show(got) if got[0] != 'E' else f"raises {got[1]}",
+                            "adverb result differs from its definition written out as separate applications")
+            ctx.bump("oracle-deviation")
+            continue
+        if "py" in head and got_log != want_log:
+            ctx.oracle_fail(f"calllog:{adv}:{verb}", dict(text=shown), repr(want_log), repr(got_log),
+                            "verb and predicate must be called exactly as the definition prescribes")
+            continue
+        lv, lp = LEAN_VERB.get(verb, verb), LEAN_VERB.get(pred, pred)
+        if drv and U.int_only(a) and lv in CONV_MODELLED and (adv[0] != 'w' or lp in CONV_MODELLED | {"{#x}", "{x}"}):
+            rep = drv.ask(f"advx {adv} {lv} {lp} {U.to_wire(a)}")
+            impl = rep.split(" impl=")[1] if " impl=" in rep else ""
+            if impl.startswith("ok:"):
+                iv = norm(U.from_wire(impl[3:].split(" log=")[0]))
+                if not U.veq(iv, got):
+                    ctx.mismatch(f"Klong.C02 impl {adv} vs adverbs.py", dict(text=shown), U.show(iv), U.show(got))
+                elif "py" in head and lean_log(impl) != real_log_wire(got_log):
+                    ctx.mismatch(f"Klong.C02 impl {adv} call log vs adverbs.py", dict(text=shown),
+                                 repr(lean_log(impl)), repr(real_log_wire(got_log)))
+                else:
+                    ctx.bump("model-agrees:convergence")
+            elif impl.startswith("err"):
+                ctx.mismatch(f"Klong.C02 impl {adv} vs adverbs.py", dict(text=shown), "err / out of fuel", U.show(got))
+
+
 def run(ctx):
     r = Real()
     drv = Driver("c02") if getattr(ctx, "driver_ok", True) else None
@@ -424,7 +735,7 @@ def run(ctx):
                 "applications; distinct = distinct (adverb, verb, operands); non-trivial = the expansion makes >= 1 call")
     ctx.assumptions += ["operands are evaluated once and passed by name, so both sides see the same stored value",
                         "reals by tolerance 1e-9 (floating-point summation order of ufunc.reduce is not modelled)"]
-    cases = gen_cases(ctx)
+    cases = gen_cases(ctx) + gen_ext_cases(ctx)
     try:
         for adv, verb, args in cases:
             vals = [r.k(U.klit(a, False)) for a in args]
@@ -452,11 +763,21 @@ def run(ctx):
             except Exception as e:
                 got = ('E', type(e).__name__)
             got_log = list(r.log)
+            if adv == "'" and len(args) == 1 and args[0][0] == 'D':
+                # "The resulting list will be in some random order": compare as multisets
+                want, got = sort_members(want), sort_members(got)
+                want_log, got_log = sorted(want_log, key=repr), sorted(got_log, key=repr)
             ctx.count((adv, verb, args), nontrivial=True)
-            ctx.bump(f"adverb:{adv}/{len(args)}")
+            ctx.bump(f"adverb:{adv}/{len(args)}" + (":dict" if args[0][0] == 'D' else ""))
             if got[0] == 'E' or not U.veq(want, got):
                 key = classify(adv, verb, args)
-                if got[0] != 'E' and U.veq(want, got, kinds=False) and mixed_numeric_array(want):
+                if adv == "'" and len(args) == 2 and short_strings(want) and got[0] == 's':
+                    key = "each2:u1-string-join"
+                elif adv == "@'" and nonempty_str(args[0]):
+                    key = "each-index:string-members"
+                elif adv == "'" and len(args) == 2 and any(nonempty_str(a) for a in args):
+                    key = "each2:string-members"
+                elif got[0] != 'E' and U.veq(want, got, kinds=False) and mixed_numeric_array(want):
                     # a result list whose members mix integers and reals is stored as one float array
                     key = "mixed-numeric-level"
                 elif adv == "\\" and verb == "%" and got[0] != 'E' and U.veq(want, got, kinds=False):
@@ -484,21 +805,42 @@ def run(ctx):
             modelled = (verb in (MODELLED1 if monadic_verb else MODELLED2)) and all(U.int_only(a) for a in args)
             if len(args) == 2 and U.depth(args[0]) >= 1 and U.depth(args[1]) >= 2:
                 modelled = False      # numpy broadcasting between arrays of different rank: C01's known class
-            if drv and modelled:
+            request = None
+            if modelled:
                 op = verb if verb in OPS2 else "-none-"
-                rep = drv.ask(f"adv {adv} {verb} {op} " + " ".join(U.to_wire(a) for a in args))
+                request = f"adv {adv} {verb} {op} " + " ".join(U.to_wire(a) for a in args)
+            # the adverbs of Klong.Model.C02Ext: Each-Index, Each-2, Each on strings and dictionaries
+            is_each2 = adv == "'" and len(args) == 2
+            ext = adv == "@'" or is_each2 or (adv == "'" and len(args) == 1 and args[0][0] in "Ds")
+            if ext:
+                lv = LEAN_VERB.get(verb, verb)
+                text_args = any(has_text_d(a) for a in args)
+                ok_verb = lv in (MODELLED2 if is_each2 else MODELLED_IDX) and (not text_args or lv in TEXT_MODELLED)
+                broadcast = is_each2 and U.depth(args[0]) >= 2 and U.depth(args[1]) >= 2 and lv not in TEXT_MODELLED
+                request = None
+                if ok_verb and all(wire_ok(a) for a in args) and not broadcast:
+                    request = f"advx {adv} {lv} - " + " ".join(U.to_wire(a) for a in args)
+            if drv and request:
+                rep = drv.ask(request)
                 if " impl=" in rep:
                     impl = rep.split(" impl=")[1]
                     if impl.startswith("ok:"):
                         iv = norm(U.from_wire(impl[3:].split(" log=")[0]))
+                        if ext and args[0][0] == 'D':
+                            iv = sort_members(iv)
                         if not U.veq(iv, got):
                             ctx.mismatch(f"Klong.C02 impl {adv} vs adverbs.py", dict(text=shown), U.show(iv), U.show(got))
+                        elif ext and "py" in verb and args[0][0] != 'D' \
+                                and lean_log(impl) != real_log_wire(got_log):
+                            ctx.mismatch(f"Klong.C02 impl {adv} call log vs adverbs.py", dict(text=shown),
+                                         repr(lean_log(impl)), repr(real_log_wire(got_log)))
                         else:
-                            ctx.bump("model-agrees")
+                            ctx.bump("model-agrees" + (":ext" if ext else ""))
                     elif impl.startswith("err"):
                         ctx.mismatch(f"Klong.C02 impl {adv} vs adverbs.py", dict(text=shown), "err", U.show(got))
             if len(ctx.samples) < 6 and ctx.evaluations % 211 == 1:
                 ctx.sample(dict(text=shown, expansion=U.show(want), real=U.show(got)))
+        run_convergence(ctx, r, drv)
         run_chains(ctx, r)
         run_redefinition(ctx, r)
     finally:
